@@ -20,7 +20,7 @@ func init() {
 var lexAlphabet = []byte("'\"`\\-/*#${}.019exb_a;:( \n\x00\xc3\xa9\xff\xe2\x80\x98@=<>|!?")
 
 var lexSnippets = []string{"$a$", "$$", "x'", "b'", "X'4", "0x", "0b1", "0o7", "1e", "1e+", ".5", "1.", "--", "/*", "*/", "\\x", "\\", "é", "中", "−", "‘", "’", "“", "”",
-	"\ufeff", "\u200b", "select", "SELECT", "a.1_x", ".1_x", "1_000", "1__0", "@@v", "@", "{p:T}", "<=>", "->", "::", "||", "!=", "<>", "'", "''", "\"", "``", "`", "$tag$", "$tag$ x $tag$", "ı", "ſelect", "\xe2\x80", "\xf0\x9f\x98", "\xf0\x9f\x98\x80", "\r\n", "\t", "1e5", "0x1p-3", "1.5e+3", "db.02_t", "9a", "0xg", "٣", "५", "５", "٣_a", "1٣", ".٣", "€", "x'41€'", "'\\x中'"}
+	"\ufeff", "\u200b", "select", "SELECT", "a.1_x", ".1_x", "1_000", "1__0", "@@v", "@", "{p:T}", "<=>", "->", "::", "||", "!=", "<>", "'", "''", "\"", "``", "`", "$tag$", "$tag$ x $tag$", "ı", "ſelect", "\xe2\x80", "\xf0\x9f\x98", "\xf0\x9f\x98\x80", "\r\n", "\t", "1e5", "0x1p-3", "1.5e+3", "db.02_t", "9a", "0xg", "٣", "५", "５", "٣_a", "1٣", ".٣", "€", "/*/", "/*/*/ x */ */", "/* /*/ */ */", "\\Ж", "'\\→'", "'\\\xff'", "x'41€'", "'\\x中'"}
 
 // lexInputs enumerates the shared lexer input space.
 func lexInputs(w *W, maxLen int, f func(idx int, in []byte, desc string)) {
@@ -125,6 +125,18 @@ func lexInputs(w *W, maxLen int, f func(idx int, in []byte, desc string)) {
 				emit([]byte(strings.Repeat(" ", start)+sn+" z"), fmt.Sprintf("slide:%d", mark))
 				emit([]byte("'"+strings.Repeat("s", start-2)+"'"+sn+" z"), fmt.Sprintf("slidestr:%d", mark))
 			}
+		}
+	}
+	for _, n := range []int{61, 62, 63, 64, 65, 127, 128, 255, 256, 257, 511, 1023, 4093, 4094, 4095, 4096} {
+		if n+16 > maxLen {
+			continue
+		}
+		for _, tail := range []string{"é", "中", "😀", "\xff", "z"} {
+			emit([]byte(strings.Repeat("a", n)+tail+" x"), fmt.Sprintf("longident:%d", n))
+			emit([]byte("'"+strings.Repeat("s", n)+tail+"z' x"), fmt.Sprintf("longstr:%d", n))
+			emit([]byte("`"+strings.Repeat("q", n)+tail+"` x"), fmt.Sprintf("longquoted:%d", n))
+			emit([]byte("/*"+strings.Repeat("c", n)+tail+"*/ x"), fmt.Sprintf("longcomment:%d", n))
+			emit([]byte(strings.Repeat("1", n)+tail), fmt.Sprintf("longnum:%d", n))
 		}
 	}
 	for _, d := range []int{28, 30, 31, 32, 33, 4090, 4094, 4095, 4096, 4097, 4100, 8188, 8191, 8192, 8193} {
